@@ -30,7 +30,7 @@ def run(res, replay=None):
                 s = gen.rand_spec(rng, n_total=rng.choice([2, 3]), n_demes=1, n_epochs=rng.choice([1, 2]), loci=2, end_time='never')
                 s['recombination_rate'] = rng.choice([0.0, 0.5, 2.0])
             else:
-                s = gen.rand_spec(rng, n_total=rng.choice([2, 3, 4]), n_epochs=rng.choice([1, 2, 3]), end_time='never')
+                s = gen.rand_spec(rng, n_total=rng.choice([2, 2, 3, 4]), n_epochs=rng.choice([1, 2, 3]), end_time='never')
             specs.append(s)
     qs_levels = [0.05, 0.5, 0.9, 0.99]
     cases = []
@@ -41,7 +41,7 @@ def run(res, replay=None):
         grid = [i * 0.125 for i in range(0, 321)]      # for the integral of the survival function (up to t = 40)
         ops = [{'kind': 'cdf', 'ts': ts}] + [{'kind': 'cdf', 'ts': [t]} for t in ts[:3]] + \
               [{'kind': 'quantile', 'q': q} for q in qs_levels] + \
-              [{'kind': 'pdf', 'ts': [0.25, 1.0, 2.5], 'dx': 2.0 ** -12}, {'kind': 'attr', 'path': 'tree_height.mean'},
+              [{'kind': 'pdf', 'ts': [0.25, 1.0, 2.5, 0.0], 'dx': 2.0 ** -12}, {'kind': 'attr', 'path': 'tree_height.mean'},
                {'kind': 'cdf', 'ts': grid}, {'kind': 'cdf', 'ts': [1e3, 1e4]}]
         cases.append({'spec': s, 'ops': ops, 'ts': ts})
     outs = C.run_impl_parallel('numeric.py', [{'cases': [{'spec': c['spec'], 'ops': c['ops']}]} for c in cases])
@@ -55,7 +55,7 @@ def run(res, replay=None):
         nts = len(c['ts'])
         tq = r['values'][1 + 3: 1 + 3 + len(qs_levels)]
         pdf_pts = [0.25, 1.0, 2.5]
-        model_ts = list(c['ts']) + list(tq) + [x + s_ for x in pdf_pts for s_ in (-h, h)]
+        model_ts = list(c['ts']) + list(tq) + [x + s_ for x in pdf_pts for s_ in (-h, h)] + [0.0, 2.0 ** -12]
         if r['k_lc'] > 70:
             continue
         txt, _ = N.case_text(i, c['spec'], r, [dict(kind='cdf', ts=model_ts)], [])
@@ -85,13 +85,20 @@ def run(res, replay=None):
                 res.violation('quantile: the CDF at the returned time is not within the stated precision of q',
                               {'spec': c['spec'], 'q': q, 'returned_time': t, 'model_cdf_at_time': mv})
         pm = m[nts + len(tq):]
-        for k_, x in enumerate(pdf_pts):
+        for k_, x in enumerate(pdf_pts[:3]):
             d_model = (pm[2 * k_ + 1] - pm[2 * k_]) / (2 * 2.0 ** -10)
             d_impl = r['values'][1 + 3 + 4][k_]
             res.count((key, 'pdf', x))
             if abs(d_model - d_impl) > 1e-4 * max(abs(d_model), 1e-2) + 1e-6:
                 res.violation('pdf does not agree with the derivative of the cdf',
                               {'spec': c['spec'], 't': x, 'model_derivative': d_model, 'observed_pdf': d_impl})
+        # density at t = 0: right derivative of the model cdf
+        d0_model = (pm[-1] - pm[-2]) / 2.0 ** -12      # the same one-sided difference the code uses at t = 0 (dx = 2^-12)
+        d0_impl = r['values'][1 + 3 + 4][3]
+        res.count((key, 'pdf', 0.0), nontrivial=d0_model > 1e-6)
+        if abs(d0_model - d0_impl) > 1e-6 * abs(d0_model) + 1e-9:
+            res.violation('pdf(0) does not agree with the (right) derivative of the cdf at 0',
+                          {'spec': c['spec'], 't': 0.0, 'model_derivative': d0_model, 'observed_pdf': d0_impl})
         # oracles on the implementation
         mean = r['values'][1 + 3 + 4 + 1]
         grid = r['values'][1 + 3 + 4 + 2]
